@@ -91,7 +91,7 @@ KEEP = {
 
 
 def text_tokens(spec):
-    return [t for n, t, c in spec.get("details", []) if c in ("text", "text-split")]
+    return [t for n, t, c in spec.get("details", []) if c in ("text", "text-split", "shared")]
 
 
 def check_payload(ctx, flavour, spec, ev, detail):
@@ -160,8 +160,10 @@ def x_case(ctx, case):
     if err is not None:
         return True
     for spec, d in handed:
-        want = {n: H.detail_bytes(t, c) for n, t, c in spec["details"]}
-        got = {n: b"".join(c.iter_bytes()) for n, c in d.items()}
+        # (a "shared" detail is one lazy object whose source moves on with every test: not comparable afterwards)
+        shared = {n for n, t, c in spec["details"] if c == "shared"}
+        want = {n: H.detail_bytes(t, c) for n, t, c in spec["details"] if n not in shared}
+        got = {n: b"".join(c.iter_bytes()) for n, c in d.items() if n not in shared}
         ctx.check(got == want, "caller.details-not-mutated",
                   lambda: {"spec": spec, "after": sorted(got), "before": sorted(want), **detail()})
     events = direct_events(history)
@@ -331,9 +333,35 @@ def run(ctx):
                 ctx.execute("case", {"stack": s, "history": h}, sample=(n % 499 == 0))
     ctx.note_space("%d stacks of depth <= 2 (+ depth-3 wrappers) x %d single-test histories (6 outcomes x "
                    "forms x test kinds x detail sets)" % (len(upto2), len(hists)), n)
+    # one lazy Content object (a log buffer) attached to every one of 2-3 tests, its source moving on in between
+    n = 0
+    OUTS = ["addFailure", "addError", "addSkip", "addExpectedFailure", "addSuccess", "addUnexpectedSuccess"]
+    for s in upto2:
+        for o1 in OUTS:
+            for o2 in OUTS[:4]:
+                if not ctx.mine():
+                    continue
+                n += 1
+                tests = []
+                for k, o in enumerate((o1, o2, o1)):
+                    det = [["log", "<<L%d>>" % k, "shared"]] + ([["traceback", "<<T%d>>" % k, "text"]] if k == 1 else [])
+                    tests.append(["test", {"id": "t%d" % k, "outcome": o, "form": "details", "kind": "placeholder",
+                                           "details": det}])
+                ctx.execute("case", {"stack": s, "history": [["startTestRun"]] + tests + [["stopTestRun"]]},
+                            sample=(n % 97 == 0))
+    ctx.note_space("%d stacks of depth <= 2 x 6 x 4 outcome pairs: three tests carrying the same lazy Content object "
+                   "whose source changes between them" % len(upto2), n)
     ctx.notes["random_cases"] = True
     for i in range(ctx.scale(20000, 800000)):
         if ctx.out_of_time():
             break
         stack = H.random_stack(rng, rng.randint(1, 3))
-        ctx.execute("case", {"stack": stack, "history": H.random_history(rng, stack, runs=rng.choice([1, 1, 2]))})
+        history = H.random_history(rng, stack, runs=rng.choice([1, 1, 2]))
+        if rng.random() < 0.25:
+            for op in history:
+                if op[0] == "test" and op[1].get("form") == "details":
+                    for item in op[1]["details"]:
+                        if item[2] == "text" and item[0] in ("log", "foo"):
+                            item[2] = "shared"
+                            break           # one per test: the shared object has one source
+        ctx.execute("case", {"stack": stack, "history": history})
